@@ -3,7 +3,8 @@ C12 (translator bridge) — the limiter functions mechanically translated from f
 (`Flowdyn/Generated/Limiters.lean`, regenerated on every run) ARE the hand-written models that the C12
 theorems are about, with the regularisation constants extracted from the same source.  A change of the
 Python functions that alters their meaning makes one of these proofs fail (a broken proof obligation: the
-check then searches for a failing input); a harmless algebraic rewrite is absorbed by `ring`.
+check then searches for a failing input); a harmless algebraic rewrite is absorbed by `ring` and by the
+normalisation of commutative operators (`a*b` / `b*a`, `min a b` / `min b a`).
 -/
 import Flowdyn.Generated.Limiters
 import Flowdyn.Generated.Tables
@@ -20,8 +21,10 @@ branch hypotheses, and let `ring` absorb harmless algebraic rewrites of the sele
 macro "lim_bridge" : tactic =>
   `(tactic| first
     | done
-    | ((try dsimp only) <;> (repeat' split) <;> (try simp only [*, if_true, if_false]) <;>
-        first | done | rfl | ring | (exfalso; simp_all; done) | (exfalso; linarith)))
+    | ((try dsimp only) <;> (try simp only [mul_comm, min_comm, max_comm]) <;> (repeat' split) <;>
+        (try simp only [*, if_true, if_false]) <;>
+        first | done | rfl | ring | (simp only [min_comm, max_comm]; done) | (exfalso; simp_all; done)
+              | (exfalso; linarith) | grind))
 
 theorem minmod_eq (a b : ℚ) : GenLim.minmod a b = Flowdyn.minmod a b := by
   simp only [GenLim.minmod, Flowdyn.minmod]
